@@ -114,7 +114,7 @@ fn on_kind<'s, I: Kind<'s>>(acc: &mut Acc, sp: &Spec, g: &G, bufs: &'s [Buf], st
 where
     I::Span: Clone + 's,
 {
-    let p = build::<I, Rich<'s, char, I::Span>>(g, Opts { wrap: true, slice: false, obs: true, track: false });
+    let p = build::<I, Rich<'s, char, I::Span>>(g, Opts { wrap: true, slice: false, obs: true, track: false, clone_iter: false });
     for buf in bufs.iter().step_by(step) {
         model_case::<I, Rich<'s, char, I::Span>>(acc, sp, g, &p, buf, enumerated);
     }
@@ -192,7 +192,7 @@ pub fn run(cx: &RunCtx) -> i32 {
     let facc = for_each_index(fam.len() * 16, cx.threads, 1, |acc, i| {
         let g = &fam[i / 16];
         let shard: Vec<&Buf> = fam_bufs.iter().skip(i % 16).step_by(16).collect();
-        let p = build::<&str, Rich<char>>(g, Opts { wrap: true, slice: false, obs: true, track: false });
+        let p = build::<&str, Rich<char>>(g, Opts { wrap: true, slice: false, obs: true, track: false, clone_iter: false });
         for buf in shard {
             if let Some((m, _)) = model_case::<&str, Rich<char>>(acc, &sp, g, &p, buf, true) {
                 acc.count("family_cases", 1);
